@@ -2,7 +2,7 @@
 """Regenerates MANIFEST.json from the table below (single source of truth)."""
 import json, subprocess
 
-HOOK_COMMITS = ["9676e60"]
+HOOK_COMMITS = ["9676e60", "8994ff0"]
 
 CHECKS = {
  "C01": dict(level="model_checking", design="DESIGN.md §6 C01, §4.1, §5.2",
@@ -18,8 +18,8 @@ CHECKS = {
    text="Safety (ExactlyOneGone, ReadyOnlyWhenFull, FullImpliesReady, ReArm, ShutdownWaits) and liveness (PeerCancelled, EndsWhenCancelled, NoLeak) are model-checked; the control graph's edges are replayed on the real Broker comparing notices, events, book-keeping and Do's return; output-path executions (flood, stalled terminal, cancellation at every point) end with a goroutine census that the trace specification only accepts when nothing of the stream is left running; the repository's tests and free-running drivers are trace-validated against BrokerCtlTrace.tla; and 40 (quick) / 400 (thorough) shells in series over real HTTPS, each with a new ID and ended in different ways, must each be accepted, announced ready once, gone once, with the callback help printed again once.",
    note="Trusted: TLC, pprof goroutine labels for the census, 5 s bound standing in for 'eventually'."),
  "C06": dict(level="model_checking", design="DESIGN.md §6 C06, §4.1, §5.2",
-   technique="TLA+ BrokerCtl.tla (SameRequest, AtMostOneIO) model-checked with TLC; every admission order of the halves of 2 /io requests replayed on the real Broker through gates",
-   text="TLC checks SameRequest / AtMostOneIO / NoMixIOUni over every interleaving of two /io requests (four halves) with or without unidirectional attempts, and the harness replays every edge on a real Broker, ordering the halves with the admit gates and checking by its own accounting which request each attached half belongs to; free-running concurrent /io callers are trace-validated by TLC (SameRequest, AtMostOneIO evaluated on every state of the recorded execution).",
+   technique="TLA+ BrokerCtl.tla (SameRequest, AtMostOneIO) model-checked with TLC; every admission order of the halves of 2 /io requests replayed on the real Broker through gates; TLC trace validation of free-running callers; inductive invariant (BrokerInd.tla) discharged by Apalache",
+   text="TLC checks SameRequest / AtMostOneIO / NoMixIOUni over every interleaving of two /io requests (four halves) with or without unidirectional attempts, and the harness replays every edge on a real Broker, ordering the halves with the admit gates and checking by its own accounting which request each attached half belongs to; free-running concurrent /io callers are trace-validated by TLC (SameRequest, AtMostOneIO evaluated on every state of the recorded execution); and Apalache discharges an inductive invariant of BrokerInd.tla (TypeOK, Consistent, KeysOfRequests, OneShell, SameRequest), so OneShell and SameRequest hold after histories of any length for 4 attempts in flight.",
    note="Trusted: TLC, gate hooks. 3-4 simultaneous /io requests are covered by simulation in the thorough tier only."),
  "C02": dict(level="model_checking", design="DESIGN.md §6 C02, §4.1, §5.3",
    technique="TLA+ BrokerIn.tla model-checked with TLC (safety + liveness); traces of the real proxyIn (gated writer, fault injection) validated by TLC against BrokerInTrace.tla",
